@@ -192,8 +192,8 @@ def run(ctx):
                 "mesh": by_mesh[k["grid"]],
             }
         )
-    if len(cases) != r.distinct - 3 * len(meshes):
-        raise Machinery("%d cases parsed, TLC enumerated %d" % (len(cases), r.distinct - 3 * len(meshes)))
+    if len(cases) != r.distinct - 4 * len(meshes):
+        raise Machinery("%d cases parsed, TLC enumerated %d" % (len(cases), r.distinct - 4 * len(meshes)))
     os.remove(gpath)
     ctx.exhaustive = True
     cases.sort(key=lambda c: c["id"])
